@@ -39,15 +39,19 @@ Full statement / proved / missing
   on which the loop is transitive because the bound of the second loop is the smaller one (`tupZip_trans`).  The Tuple stage was NOT
   provable of the original code: Array ⊒ Tuple and Tuple ⊒ Array compared declared types at positions no instance can have, and a typed
   Tuple rejected every untyped Tuple of non-zero size — three genuine transitivity defects, repaired in /repo (1901e0c).
-  STAGE 3, `C03_trans_struct_partial` PROVED, unbounded: the same on the fragment `Ty.TS sfh` = `Ty.TF` plus, with the Struct-from-Hash
+  STAGE 3, `C03_trans_struct_partial` PROVED, unbounded: the same on the fragment `Ty.TS sfh` = `Ty.TF` plus Iterable plus, with the Struct-from-Hash
   rule OFF (`sfh = false`), Struct with members of any nesting, anywhere in the three terms: Struct ⊒ Struct is rewritten as a relation
   between member lists (`struct_recv_iff`: every member the other Struct has is accepted on key optionality and value type, every member
   it lacks is optional, every member of the other Struct is one of the receiver's — the count `structAll = distinctCount`), which composes
   (`struct_trans`); the receiver's size range [#required, #members] includes the accepted Struct's (`struct_sub_size`), which carries
   Collection ⊒ Struct and Hash ⊒ Struct; the member loop of Hash ⊒ Struct composes with Hash ⊒ Hash and with Struct ⊒ Struct
   (`members_trans`).  All three terms well-formed (member names pairwise different).  No case of the Struct rules turned out intransitive
-  with the rule off.
-  Missing: Iterable, Data/RichData.  Transitivity is also checked on the implementation on related triples, sampled
+  with the rule off.  ITERABLE is inside the fragment for BOTH settings of the rule (`trG_iterable`, rules as repaired in /repo f8eabd3): on
+  Array / Tuple its rule is the position loop without a size test (`recv_iter_pos`), on a Hash it asks about the entry type Tuple[k, v], on
+  a Struct about Tuple[String[name], t] of every member, on the String family about String[1,1], on Binary about Integer[0,255]; the
+  synthesized entry tuples are lighter than the Hash / Struct member they come from, so the induction hypothesis applies to them
+  (`entry_asg`).  With the rule ON a chain Iterable ⊒ Struct ⊒ Hash is a case of the permanent finding (Struct is outside `Ty.TS true`).
+  Missing: Data/RichData.  Transitivity is also checked on the implementation on related triples, sampled
   universe triples and EVERY triple of the positional universe (`lat.Positional`).
 * no fault: `asg` and `tyEq` are total functions without a fault constructor; the nil dereference of `Tuple.Equals` was repaired (5e6c612).
 -/
@@ -167,12 +171,12 @@ example (cfg : Cfg) :
   refine ⟨by simp [Ty.TF], ?_, ?_, ?_⟩ <;>
     simp [asg, asgRecv, tupZip, sameNullary, tupleSize, Rng.exact, Rng.sub]
 
-/-! ### transitivity, stage 3: Struct inside the fragment when the Struct-from-Hash rule is off -/
-/-- Transitivity on the fragment `Ty.TS sfh` = `Ty.TF` plus, for `sfh = false`, Struct with members of any nesting: Struct ⊒ Struct
+/-! ### transitivity, stage 3: Iterable, and Struct when the Struct-from-Hash rule is off, inside the fragment -/
+/-- Transitivity on the fragment `Ty.TS sfh` = `Ty.TF` plus Iterable plus, for `sfh = false`, Struct with members of any nesting: Struct ⊒ Struct
     (member lookup by name, optional / required keys, value types, the count of matched members), Collection / Hash ⊒ Struct (size
     range `[#required, #members]`, the member loop through key and value type), Variant / Optional / NotUndef / Any / Type[..] around
-    them; a Struct accepts nothing but Structs when the rule is off.  For `sfh = true` the fragment has no Struct and this is
-    `C03_trans_partial`. -/
+    them; a Struct accepts nothing but Structs when the rule is off; Iterable[x] ⊒ Array / Tuple / Hash / Struct / String family /
+    Binary / Iterable.  For `sfh = true` the fragment has no Struct: `C03_trans_partial` plus Iterable. -/
 theorem C03_trans_struct_partial (cfg : Cfg) (sfh : Bool) (hl : ∀ s, (cfg.lower s).length = s.length) (a b c : Ty)
     (fa : a.TS sfh) (fb : b.TS sfh) (fc : c.TS sfh) (wa : Ty.WF cfg a) (wb : Ty.WF cfg b) (wc : Ty.WF cfg c)
     (h1 : asg cfg sfh a b = true) (h2 : asg cfg sfh b c = true) : asg cfg sfh a c = true :=
@@ -201,6 +205,21 @@ example (cfg : Cfg) :
   refine ⟨by simp [Ty.TS], ?_, ?_⟩
   · simp [asg, asgRecv, asgAnyL, sameNullary, structAll, structMember, distinctCount, isStringFamily]
   · simp [asg, asgRecv, asgAnyL, sameNullary, structAll, structMember, distinctCount, isStringFamily]
+
+/-- non-vacuity with Iterable (in the fragment for both settings of the rule), on the chain that was the second former counterexample:
+    Iterable[Tuple[Scalar, Any]] ⊒ Hash[String, Integer, 0, 5] ⊒ Struct[{a=>Integer[0,9]}] (rule off), and with the rule on
+    Iterable[Scalar] ⊒ Array[String, 0, 3] ⊒ Tuple[Enum['a'], String[1,1]] -/
+example (cfg : Cfg) :
+    (Ty.iterable (.tuple [.scalar, .any] none)).TS false ∧ (Ty.iterable .scalar).TS true ∧
+    asg cfg false (.iterable (.tuple [.scalar, .any] none)) (.hash .str (.int Rng.all) ⟨0, 5⟩) = true ∧
+    asg cfg false (.hash .str (.int Rng.all) ⟨0, 5⟩) (.struct [("a", false, .int ⟨0, 9⟩)]) = true ∧
+    asg cfg true (.iterable .scalar) (.array .str ⟨0, 3⟩) = true ∧
+    asg cfg true (.array .str ⟨0, 3⟩) (.tuple [.enum ["a"] false, .strSz ⟨1, 1⟩] none) = true := by
+  refine ⟨by simp [Ty.TS], by simp [Ty.TS], ?_, ?_, ?_, ?_⟩
+  · simp [asg, asgRecv, tupZip, sameNullary, tupleSize, Rng.exact, Rng.sub, isStringFamily]
+  · simp [asg, asgRecv, sameNullary, asgMembers, structSize, Rng.sub, Rng.all, I64.min, I64.max, isStringFamily]
+  · simp [asg, asgRecv, sameNullary, isStringFamily]
+  · simp [asg, asgRecv, tupZip, sameNullary, tupleSize, Rng.exact, Rng.sub, isStringFamily]
 
 def C03_trans : Prop :=
   ∀ (cfg : Cfg) (sfh : Bool) (a b c : Ty), Ty.WF cfg a → Ty.WF cfg b → Ty.WF cfg c →
